@@ -11,7 +11,11 @@ def main():
         pairs = json.load(f)
     res = []
     for ro_text, msg_text in pairs:
-        ro, mo = impl.load(ro_text), impl.load(msg_text)
+        try:
+            ro, mo = impl.load(ro_text), impl.load(msg_text)
+        except Exception as e:  # noqa: BLE001 - the documents were read by the long-lived process
+            res.append({'err': 'not-read:' + str(impl.err_name(e)), 'warns': [], 'text': None})
+            continue
         o = impl.add(ro, mo)
         res.append({'err': o['err'], 'warns': o['warns'], 'text': str(ro)})
     with open(outp, 'w') as f:
